@@ -48,7 +48,11 @@ def configs(tier):
 
 
 def run_one(seed, tape, opts):
-    w = cc.setup(tape, opts, relay_ok=False)
+    # each side may declare the subprotocols it expects (the workload only
+    # uses these two names, so nothing is refused)
+    exp = tuple(tape.pick((None, None, ("p1", "p2"), ["p2", "p1"]), "exp")
+                for _ in range(2))
+    w = cc.setup(tape, opts, relay_ok=False, expected=exp)
     sim = w.sim
     listeners_first = tape.choose(3, "listen_late") != 0
     wl = cc.Workload(w, tape, max_subs=3, max_ops=12,
@@ -147,6 +151,12 @@ def run_one(seed, tape, opts):
             if not qs:
                 continue
             q = qs[0]
+            if q.name != p.name:
+                V("C10.open_wrong_listener", "each open is delivered exactly "
+                  "once to the peer application (the one listening for that "
+                  "subprotocol)", "%s opened scid %d for %r; the peer's %r "
+                  "listener got it" % (s.name, p.scid, p.name, q.name))
+                return
             if q.made > 1:
                 V("C10.made_twice", "each open is delivered exactly once",
                   "scid %d connectionMade %d times" % (p.scid, q.made))
